@@ -122,7 +122,9 @@ def normalise(case, obs):
     elif r.get("kind") == "h2" and obs.reactor is not None:
         rx = obs.reactor
         client = ("h2", rx.upgrade_head is not None and rx.upgrade_head[:12],
-                  sorted((sid, s.status, tuple(s.final_headers() and [x for x in s.final_headers() if x[0] != b"date"] or ()), _h(s.data), s.ended, s.rst)
+                  sorted((sid, s.status, tuple(s.final_headers() and [x for x in s.final_headers() if x[0] != b"date"] or ()),
+                          # how much of a response the server itself aborted had already left is a scheduling matter (send task vs application)
+                          "<aborted>" if (s.rst is not None and not s.ended) else _h(s.data), s.ended, s.rst)
                          for sid, s in rx.streams.items()),
                   None if rx.goaway is None else (rx.goaway.get("code"), rx.goaway.get("last")))
     elif r.get("kind") == "ws" and obs.reactor is not None:
@@ -138,7 +140,7 @@ def normalise(case, obs):
             methods = [(q["method"], q.get("version", "1.1")) for q in treq] + methods
         try:
             resps, pos = h1.parse_responses(data, methods, obs.closed_at is not None)
-            client = ("h1", tuple((x.status, tuple(h for h in x.headers if h[0].lower() != b"date"), _h(x.body), x.complete) for x in resps))
+            client = ("h1", tuple((x.status, tuple(h for h in x.headers if h[0].lower() != b"date"), _h(x.body) if x.complete else "<aborted>", x.complete) for x in resps))
         except h1.Malformed:
             client = _h2_structure(data)
     closed = None if obs.closed_at is None else round(obs.closed_at, 6)
